@@ -38,10 +38,41 @@ pub fn parses(src: &str, syn: Syntax) -> Result<(), String> {
 /// The trusted parser must reproduce the input when its tree is printed. full_moon accepts some malformed text
 /// (e.g. a truncated Luau type table) by silently dropping tokens; on such input no claim is made.
 pub fn parser_lossless(src: &str, syn: Syntax) -> bool {
-    matches!(guarded(|| norm::parse(src, syn).map(|a| a.to_string() == src)), Ok(Ok(true)))
+    matches!(guarded(|| norm::parse(src, syn).map(|a| a.to_string() == src && lexer_agrees(&a, src, syn))), Ok(Ok(true)))
 }
 
-const LOSSY: &str = "the trusted parser is not lossless on this input";
+/// Self-check of the checker's lexer (harness soundness, never a violation): its code-token boundaries must be
+/// the parser's (`5do` is one malformed number for a Lua lexer but `5` `do` for full_moon; such input is not judged).
+fn lexer_agrees(ast: &full_moon::ast::Ast, src: &str, syn: Syntax) -> bool {
+    use full_moon::node::Node;
+    let Ok(toks) = lex::lex(src, syn) else { return false };
+    let mine: Vec<(usize, usize)> = toks.iter().filter(|t| !t.kind.is_trivia()).map(|t| (t.start, t.end)).collect();
+    let mut theirs: Vec<(usize, usize)> = Vec::with_capacity(mine.len());
+    for t in ast.nodes().tokens() {
+        let (s, e) = (t.token().start_position().bytes(), t.token().end_position().bytes());
+        if e > s {
+            theirs.push((s, e));
+        }
+    }
+    theirs.sort();
+    // the parser splits `>>` inside type arguments into two tokens
+    let mut i = 0;
+    let mut j = 0;
+    while i < mine.len() && j < theirs.len() {
+        if mine[i] == theirs[j] {
+            i += 1;
+            j += 1;
+        } else if &src[mine[i].0..mine[i].1] == ">>" && j + 1 < theirs.len() && theirs[j].0 == mine[i].0 && theirs[j + 1].1 == mine[i].1 && theirs[j].1 == theirs[j + 1].0 {
+            i += 1;
+            j += 2;
+        } else {
+            return false;
+        }
+    }
+    i == mine.len() && j == theirs.len()
+}
+
+const LOSSY: &str = "the trusted parser is not lossless on this input, or its tokens differ from the checker's lexer";
 
 fn lex_ok(src: &str, syn: Syntax) -> Result<Vec<Tok>, String> {
     lex::lex(src, syn).map_err(|e| format!("checker lexer: {} at byte {}", e.msg, e.at))
